@@ -46,8 +46,8 @@ try:
         subprocess.check_call([sys.executable, "-m", "py_compile", path])
     env = dict(os.environ, TPMON_REPO=tmp + "/r/src")
     if a.tests:
-        r = subprocess.run(["/venv/bin/python", "-m", "pytest", "-q", "-x", "-p", "no:cacheprovider", "--no-cov",
-                            "-q"] + a.tests.split(), cwd=tmp + "/r",
+        r = subprocess.run(["/venv/bin/python", "-m", "pytest", "-q", "-p", "no:cacheprovider", "--no-cov",
+                            "--deselect", "tests/tests_plots/test_animation.py", "-q"] + a.tests.split(), cwd=tmp + "/r",
                            env=dict(env, PYTHONPATH=tmp + "/r/src"), capture_output=True, text=True)
         print("MUTANT-TESTS:", r.stdout.strip().splitlines()[-1] if r.stdout.strip() else r.stderr[-300:])
     rc = subprocess.call(cmd, env=env, cwd="/verif") if cmd else 0
